@@ -40,7 +40,8 @@ CONSTANTS Miners,       \* coinbase identities (small integers)
           MaxBlocks, MaxHeight,
           BaseReward, Fee,
           WorkShares,   \* pool of extra work shares (small integers)
-          WSMiner, WSNumber, WSWeight,   \* attributes of the pool's shares (functions over WorkShares)
+          WSMiner, WSNumber, WSWeight, WSByte,   \* attributes of the pool's shares (functions over WorkShares)
+          CheckAmounts, \* FALSE for implementation traces (amounts are abstracted to 1 there, exactness is the oracle's job)
           DeepForks,    \* also fork two blocks below the head
           Profiles      \* what a block's miner may ask for: set of <<miner, byte, layout, contract>>
 
@@ -89,7 +90,7 @@ SumWeights(seq, i) == IF i > Len(seq) THEN 0 ELSE ShareWeight(seq[i]) + SumWeigh
 ShareAmount(seq, i) == (BaseReward * ShareWeight(seq[i])) \div SumWeights(seq, 1)
 
 \* what the miner of share s asked for (own share: the block's header fields; pool share: fixed attributes)
-AttrOf(s) == IF s >= 100 THEN [miner |-> WSMiner[s - 100], byte |-> 0, layout |-> "plain", contract |-> 0]
+AttrOf(s) == IF s >= 100 THEN [miner |-> WSMiner[s - 100], byte |-> WSByte[s - 100], layout |-> "plain", contract |-> 0]
              ELSE [miner |-> blocks[s].miner, byte |-> blocks[s].byte, layout |-> blocks[s].layout, contract |-> blocks[s].contract]
 
 \* a reward: [id, share, miner, byte, layout, contract, amt]
@@ -265,9 +266,14 @@ RewardAmountIsFormula ==
     \A b \in {cur} \ {Gen} :
         LET iss == blocks[b].issued
             exp == ExpectedShares(b)
+            pos(sh) == CHOOSE i \in DOMAIN exp : exp[i] = sh
         IN  /\ Len(iss) = Len(exp)
-            /\ \A i \in DOMAIN iss : iss[i].share = exp[i] /\ iss[i].amt = ShareAmount(exp, i) /\ ShareNumber(exp[i]) = blocks[b].height - InclDepth
-            /\ SumAmounts(iss, 1) <= BaseReward
+            /\ {iss[i].share : i \in DOMAIN iss} = {exp[i] : i \in DOMAIN exp}        \* exactly the shares of the target height
+            /\ (iss # <<>> => iss[1].share = exp[1])                                  \* the target block's own share first
+            /\ \A i \in DOMAIN iss : ShareNumber(iss[i].share) = blocks[b].height - InclDepth
+            /\ \A i \in DOMAIN iss : iss[i].miner = AttrOf(iss[i].share).miner /\ iss[i].byte = AttrOf(iss[i].share).byte
+            /\ CheckAmounts => (/\ \A i \in DOMAIN iss : iss[i].amt = ShareAmount(exp, pos(iss[i].share))
+                                /\ SumAmounts(iss, 1) <= BaseReward)
 
 \* a plain Quai reward is credited in exactly the block Depth[byte] above its arrival: not earlier, not later, once
 CreditExactlyAtUnlock ==
